@@ -418,6 +418,62 @@ fn images_long<C: CI>(ctx: &mut Ctx) {
         }
     });
 }
+/// 2^10 .. 2^16 symbols and 65 .. 2049 machine words, random and structured contents (long runs of one symbol,
+/// periodic blocks): the image of a parsed / collected / copied sequence is the packed model, it rebuilds to an
+/// equal sequence, a handful of counts around the length and the capacity behave, and one-word windows at block
+/// seams convert to the positional sum
+fn images_huge<C: CI>(ctx: &mut Ctx) {
+    let a = C::alpha();
+    let name = C::NAME;
+    let bits = a.bits as usize;
+    let fit = 64 / bits;
+    let noff = n_offsets(a.bits);
+    if ctx.lite {
+        return;
+    }
+    ctx.group(&format!("{name}/raw-image-huge"), |ctx| {
+        for (k, n) in huge_lengths(ctx, a.bits).into_iter().enumerate() {
+            let codes = structured_codes(&mut ctx.rng, a, n, k);
+            let want_words = model::pack_words(a.bits, &codes);
+            let pad = [1 % noff, 0, (k * 3 + 2) % noff][k % 3];
+            let p = Padded::<C>::new(&mut ctx.rng, pad, &codes, 2);
+            let subjects: [(&str, Seq<C>); 3] = [("parsed-huge", mk::<C>(&codes)), ("collected-huge", mk_codes::<C>(&codes)), ("to_owned-of-offset-slice-huge", p.slice().to_owned())];
+            for (prov, s) in subjects {
+                ctx.eval();
+                let what = format!("{name} {prov} len {n}");
+                let raw: Vec<usize> = s.into_raw().to_vec();
+                let live = model::live_bits(&raw, n * bits);
+                let first_bad = live.iter().zip(&want_words).position(|(g, w)| g != w);
+                check!(ctx, live.len() == want_words.len() && first_bad.is_none(), format!("into_raw|{name}|{prov}|layout"), "{what}: image differs from the packed model first at word {:?}: got {:x?} want {:x?}", first_bad, first_bad.map(|i| live[i]), first_bad.map(|i| want_words[i]));
+                let cap = raw.len() * 64 / bits;
+                for cnt in [n, 0, 1, n - 1, n + 1, cap, cap + 1, n / 2 + 1] {
+                    let fits = cnt * bits <= raw.len() * 64;
+                    match observe(|| Seq::<C>::from_raw(cnt, &raw)) {
+                        Ok(Some(q)) => {
+                            check!(ctx, fits && q.len() == cnt, format!("from_raw|{name}|length"), "{what}: from_raw({cnt}) -> len {}", q.len());
+                            if fits && cnt <= n {
+                                check!(ctx, q == s[..cnt] && model::live_bits(q.into_raw(), cnt * bits) == model::live_bits(&raw, cnt * bits), format!("from_raw|{name}|{prov}|roundtrip"), "{what}: from_raw({cnt}, image) is not equal to the first {cnt} symbols");
+                            }
+                        }
+                        Ok(None) => check!(ctx, !fits, format!("from_raw|{name}|refuses-fitting"), "{what}: from_raw({cnt}) = None but it fits"),
+                        Err(pm) => check!(ctx, false, format!("from_raw|{name}|panics"), "{what}: from_raw({cnt}) panicked {pm}"),
+                    }
+                }
+                // one-word windows at block seams
+                for st in [0usize, 1023, 1024, 4095, 4096, 8191, 16384, n / 2, n.saturating_sub(fit)] {
+                    if st + fit > n {
+                        continue;
+                    }
+                    let want = model::pack_u128(a.bits, &codes[st..st + fit]);
+                    let got = observe(|| usize::try_from(&s[st..st + fit]).ok());
+                    check!(ctx, got == Ok(Some(want as usize)), format!("usize::try_from(&slice)|{name}|value"), "{what}: symbols {st}..{} convert to {:x?}, want {want:#x}", st + fit, got);
+                }
+                cell!(ctx, "{name}/image-huge/{prov}/2^{}", usize::BITS - n.leading_zeros());
+                ctx.nontrivial(fp(&[b"imgh", name.as_bytes(), prov.as_bytes(), &(n as u64).to_le_bytes(), &[k as u8]]));
+            }
+        }
+    });
+}
 fn images_long_comp<C: CI + ComplementMut>(ctx: &mut Ctx) {
     let a = C::alpha();
     let name = C::NAME;
@@ -517,6 +573,7 @@ fn main() {
         for_each_codec!(images, ctx);
         for_each_comp_codec!(images_comp, ctx);
         for_each_codec!(images_long, ctx);
+        for_each_codec!(images_huge, ctx);
         for_each_comp_codec!(images_long_comp, ctx);
         images_bitops(ctx);
         readme_table(ctx);
